@@ -33,6 +33,12 @@ func ReadState(db *badger.DB, m *model.DB, so StateOpts) *History {
 	}
 	defer txn.Discard()
 	rec := &TxnRec{ID: -1, ReadTs: txn.ReadTs(), Managed: so.Managed, Finished: true}
+	if !so.Managed {
+		// a quiescent read of the newest state must see every committed write, whatever number the
+		// oracle restarted from after a re-open (a commit whose only entry was a tombstone that
+		// compaction removed leaves no trace of its timestamp)
+		rec.ReadTs = ^uint64(0)
+	}
 	keys := m.Keys()
 	keys = append(keys, so.ExtraKeys...)
 	for i, k := range keys {
